@@ -50,7 +50,9 @@ DecReps ==
 
 TextReps ==
     "sp" :> << <<32>> >> @@ "nl" :> << <<10>> >> @@ "tab" :> << <<9>> >> @@ "ff" :> << <<12>> >> @@ "cr" :> << <<13>> >> @@
-    "nw" :> << <<11>>, <<31>>, <<33>>, <<8>>, <<14>>, <<160>>, <<133>> >> @@    \* near misses: not whitespace
+    "nw" :> << <<11>>, <<31>>, <<33>>, <<8>>, <<14>>, <<160>>, <<133>>,          \* near misses: not whitespace
+               \* ... and characters whose CODE POINT ends in a white-space byte: U+2020, U+0120, U+2009, U+200A, U+0109, U+200C
+               <<226, 128, 160>>, <<196, 160>>, <<226, 128, 137>>, <<226, 128, 138>>, <<196, 137>>, <<226, 128, 140>> >> @@
     "U"  :> << <<65>>, <<90>>, <<77>> >> @@ "l" :> << <<97>>, <<122>>, <<109>> >> @@
     "o"  :> << <<0>>, <<255>>, <<64>>, <<91>>, <<96>>, <<123>>, <<195, 137>>, <<193>>, <<225>> >>
 
